@@ -14,7 +14,7 @@ import (
 func init() {
 	register(&propDef{
 		id: "C08", level: "other", run: runC08,
-		explanation: "Decided: absence of a history channel. (R1/R2) global-write effect analysis: every package-level variable of the three library packages, every store to it, through it (pointers, maps, slices loaded from it), or via a callee that writes through a pointer derived from it, in any function reachable from Decode/DecodeChained/CheckIntegrity/Encode in the VTA call graph; profile rows additionally by a type-based who-may-write rule. (R3) map-order lint: a range over a map in reachable code may only build maps/sets or append to a slice that is sorted afterwards. (R4) no ambient input (time.Now, math/rand, os.Getenv, os.Args, file reads) in reachable module code. NOT decided: equality with 'a fresh process' as an observation; that is the consequence of R1-R4 assuming the standard library is pure for the calls made.",
+		explanation: "Decided: absence of a history channel. (R1/R2) global-write effect analysis: every package-level variable of the three library packages, every store to it, through it (pointers, maps, slices loaded from it), or via a callee that writes through a pointer derived from it, in any function reachable from Decode/DecodeChained/CheckIntegrity/Encode in the VTA call graph; profile rows additionally by a type-based who-may-write rule. (R3) map-order lint: a range over a map in reachable code may only build maps/sets or append to a slice that is sorted afterwards. (R4) no ambient input (time.Now, math/rand, os.Getenv, os.Args, file reads) in reachable module code. NOT decided: equality with 'a fresh process' as an observation; that is the consequence of R1-R4 assuming the standard library is pure for the calls made. (R6) nothing on Encode's call tree writes a member of a message it was handed: Encode leaves the caller's File as it found it.",
 		trusted:     []string{"VTA call graph over CHA (x/tools v0.29.0) over-approximates dynamic dispatch", "read-only summaries of the external callees listed in checker/effects.go"},
 	})
 	register(&propDef{
